@@ -227,6 +227,53 @@ pub fn screen_budget(c: &Canon) -> usize {
     (c.steps.saturating_mul(4).saturating_add(64)).min(1 << 26) as usize
 }
 
+/// Judge a halting canonical run that only the *accelerated* reference could finish (the naive run
+/// exceeds the step cap, e.g. a loop that adds a 2^37 constant one unit at a time). Whether a correct
+/// backend finishes such a program quickly depends on which loops its optimiser closes, which no
+/// property demands: a run that is still going at a generous budget is inconclusive (Ok(false)), never
+/// a violation. A run that finishes must show the canonical trace; an interrupted one a prefix of it.
+pub fn judge_halting_lenient(c: &Compiled, script: &[u8], canon: &Canon) -> Result<bool, Failure> {
+    let expected = &canon.trace;
+    let cap = expected.len() + 4;
+    let budget = screen_budget(canon).saturating_mul(16).max(1 << 20);
+    let (r, log) = run_logged(c, Mode::Limited(budget), script, cap, Arm::default());
+    let fail = |class: &str, mode: String, log: &[Act], i: usize, detail: String| Failure {
+        class: class.into(),
+        mode,
+        observed: trace_str(log),
+        expected: trace_str(expected),
+        first_diff: i,
+        detail,
+    };
+    if let Some(p) = r.panicked {
+        return Err(fail("panic", mode_str(Mode::Limited(budget)), &log, 0, p));
+    }
+    if let Some((not_opened, pos)) = r.err {
+        return Err(fail(
+            "error",
+            mode_str(Mode::Limited(budget)),
+            &log,
+            0,
+            format!("execution of a balanced program returned Err(loop_not_opened={not_opened}, position {pos})"),
+        ));
+    }
+    if r.finished == Some(true) {
+        // the unlimited twin is safe to run in-process: its limited twin just terminated
+        let (r2, log2) = run_logged(c, Mode::Execute, script, cap, Arm::default());
+        if let Some(p) = r2.panicked {
+            return Err(fail("panic", "execute".into(), &log2, 0, p));
+        }
+        return match classify(&log2, expected) {
+            None => Ok(true),
+            Some((cl, i)) => Err(fail(cl, "execute".into(), &log2, i, "canonical trace from the accelerated reference".into())),
+        };
+    }
+    match classify(&log, expected) {
+        None | Some(("missing", _)) => Ok(false),
+        Some((cl, i)) => Err(fail(cl, mode_str(Mode::Limited(budget)), &log, i, "interrupted run is not a prefix of the canonical trace (accelerated reference)".into())),
+    }
+}
+
 /// Judge a *halting* canonical run against the backend's plain `execute` (screened through
 /// `execute_limited` so that miscompiled hangs stay cheap). `known_hang` lets a listed member of a
 /// known hang finding skip the wall-clock run.
